@@ -1,5 +1,4 @@
-"""bridgepoint/oal.py  ->  lean/Gen/OalPrec.lean        (property C07)
-
+"""bridgepoint/oal.py  ->  lean/Gen/OalPrec.lean:
 Reads the SOURCE TEXT of bridgepoint/oal.py with `ast` (the module is not imported) and emits
 
   precRows      the `precedence` tuple as written: (assoc, names) per row, level = 1-based row index
